@@ -1,3 +1,4 @@
+import copy
 import inspect
 from functools import wraps
 from itertools import chain
@@ -261,28 +262,30 @@ def propagate_rebin_uncertainties(uncertainty, data, mask, operation, operation_
             propagation_operation = np.multiply
         else:
             raise ValueError("propagation_operation not recognized.")
+    # Work on copies so that the arrays of the caller (which can be views of a cube's
+    # data, uncertainty and mask) are never altered by the bookkeeping below.
+    # The mask is handled explicitly here, so a masked array is reduced to its data.
+    uncertainty = copy.deepcopy(uncertainty)
+    data = np.ma.getdata(data).copy() if isinstance(data, np.ma.MaskedArray) else data.copy()
+    if mask is not None and not isinstance(mask, bool):
+        mask = mask.copy()
     # Build mask if not provided.
     new_uncertainty = uncertainty[0]  # Define uncertainty for initial iteration step.
     if operation_ignores_mask or mask is None:
         mask = False
+    # NaN data do not contribute to nan-type operations, hence nor do their uncertainties.
+    if operation_is_nantype:
+        nan_mask = np.isnan(data)
+        if mask is not False:
+            mask[nan_mask] = True
+        elif nan_mask.any():
+            mask = nan_mask
     if mask is False:
-        if operation_is_nantype:
-            nan_mask = np.isnan(data)
-            if nan_mask.any():
-                mask = nan_mask
-                idx = np.logical_not(mask)
-                mask1 = mask[1:]
-        else:
-            # If there is no mask and operation is not nan-type, build generator
-            # so non-mask can still be iterated.
-            n_pix_per_bin = data.shape[flat_axis]
-            mask1 = (False for i in range(1, n_pix_per_bin))
+        # If there is no mask, build generator so non-mask can still be iterated.
+        n_pix_per_bin = data.shape[flat_axis]
+        mask1 = (False for i in range(1, n_pix_per_bin))
     else:
-        # Mask uncertainties corresponding to nan data if operation is nantype.
-        if operation_is_nantype:
-            mask[np.isnan(data)] = True
-        # Set masked uncertainties in first mask to 0
-        # as they shouldn't count towards final uncertainty.
+        # Set masked uncertainties to 0 as they shouldn't count towards final uncertainty.
         mask1 = mask[1:]
         idx = np.logical_not(mask)
         uncertainty.array[mask] = 0
@@ -296,7 +299,10 @@ def propagate_rebin_uncertainties(uncertainty, data, mask, operation, operation_
     new_uncertainty.parent_nddata = parent_nddata
     for j, mask_slice in enumerate(mask1):
         i = j + 1
-        cumul_data = operation(data[:i+1]) if mask is False else operation(data[:i+1][idx[:i+1]])
+        if mask is False:
+            cumul_data = operation(data[:i+1], axis=flat_axis)
+        else:
+            cumul_data = operation(data[:i+1][idx[:i+1]])
         data_slice = astropy.nddata.NDData(data=data[i], mask=mask_slice,
                                            uncertainty=uncertainty[i])
         new_uncertainty = new_uncertainty.propagate(propagation_operation, data_slice,
@@ -307,8 +313,12 @@ def propagate_rebin_uncertainties(uncertainty, data, mask, operation, operation_
     # number of unmasked pixels in each bin.
     if operation_is_mean and propagation_operation is np.add:
         if mask is False:
-            new_uncertainty.array /= n_pix_per_bin
+            n_contributing = n_pix_per_bin
         else:
             unmasked_per_bin = np.logical_not(mask).astype(int).sum(axis=flat_axis)
-            new_uncertainty.array /= np.clip(unmasked_per_bin, 1, None)
+            n_contributing = np.clip(unmasked_per_bin, 1, None)
+        # A variance scales with the square of the factor by which the data is scaled.
+        if isinstance(new_uncertainty, astropy.nddata.VarianceUncertainty):
+            n_contributing = n_contributing ** 2
+        new_uncertainty.array = new_uncertainty.array / n_contributing
     return new_uncertainty
